@@ -2561,6 +2561,39 @@ func pegCoverCorpus(g *pegGrammar) []string {
 	return out
 }
 
+// pegTokenCorpus: every sequence of up to three lexical tokens of the path language (and a deterministic sample of the
+// sequences of four; all of them and a sample of five in the thorough tier) - exhaustive at the token level where the
+// other corpora are local mutations of well-formed paths
+func pegTokenCorpus() []string {
+	toks := []string{"$", "@", ".a", "..", "[", "]", "'a'", "\"a\"", "*", "?(", ")", "(", "==", "!=", "<", "<=", ">", ">=", "=~", "/a/", "&&", "||", "!", ",", ":", "1", "-1", " ", "true", "null", ".f()", "a", "."}
+	var out []string
+	var rec func(prefix string, depth, max int, stride *int)
+	rec = func(prefix string, depth, max int, stride *int) {
+		if depth == max {
+			return
+		}
+		for _, tk := range toks {
+			s := prefix + tk
+			if depth+1 < 4 || apiThorough && depth+1 == 4 {
+				out = append(out, s)
+			} else {
+				*stride++
+				if (!apiThorough && *stride%9 == 0) || (apiThorough && *stride%41 == 0) {
+					out = append(out, s)
+				}
+			}
+			rec(s, depth+1, max, stride)
+		}
+	}
+	n := 0
+	max := 4
+	if apiThorough {
+		max = 5
+	}
+	rec("", 0, max, &n)
+	return out
+}
+
 func apiCheckGrammar(t *testing.T) {
 	g, err := pegLoad()
 	if err != nil {
@@ -2570,6 +2603,7 @@ func apiCheckGrammar(t *testing.T) {
 	paths, cfg := apiParseCorpus()
 	paths = append(paths, pegBoundaryCorpus(g)...)
 	paths = append(paths, pegCoverCorpus(g)...)
+	paths = append(paths, pegTokenCorpus()...)
 	// documented semantic restriction: a comparison never has two current-node operands, whatever the operator and however
 	// the comparison is embedded
 	cur := []string{`@.a`, `@`, `@.a.f()`, `@.a[0]`, `@['a']`, `@.a.b`, `@..a`, `@.*`, `@.a.g()`}
